@@ -179,3 +179,27 @@ def run_link_iter(frames, sr, memory=0, link_strategy=None, max_size=None, adapt
     finally:
         Linker.MAX_SUB_NET_SIZE, Linker.MAX_SUB_NET_SIZE_ADAPTIVE = old
     return out
+
+
+import contextlib
+
+
+@contextlib.contextmanager
+def size_limit(n):
+    """temporarily lower Linker.MAX_SUB_NET_SIZE (and the adaptive one): keeps the exponential subnet solvers
+    (run interpreted) and the model's search within seconds; a larger subnet raises SubnetOversizeException,
+    which every harness handles and the model predicts"""
+    from trackpy.linking.linking import Linker
+    from trackpy.linking import legacy
+    old = (Linker.MAX_SUB_NET_SIZE, Linker.MAX_SUB_NET_SIZE_ADAPTIVE, legacy.Linker.MAX_SUB_NET_SIZE, legacy.Linker.MAX_SUB_NET_SIZE_ADAPTIVE)
+    Linker.MAX_SUB_NET_SIZE = n
+    Linker.MAX_SUB_NET_SIZE_ADAPTIVE = n
+    legacy.Linker.MAX_SUB_NET_SIZE = n
+    legacy.Linker.MAX_SUB_NET_SIZE_ADAPTIVE = n
+    try:
+        yield
+    finally:
+        (Linker.MAX_SUB_NET_SIZE, Linker.MAX_SUB_NET_SIZE_ADAPTIVE, legacy.Linker.MAX_SUB_NET_SIZE, legacy.Linker.MAX_SUB_NET_SIZE_ADAPTIVE) = old
+
+
+LIMIT = 10
